@@ -111,7 +111,9 @@ func PreIdent(t *rapid.T, hostile bool, label string) string {
 	case k < 30:
 		return Num(t, false, label+"n")
 	case k < 50:
-		return []string{"alpha", "beta", "rc", "pre", "RC", "Alpha", "a", "b", "A", "-", "--", "0a", "a0", "0-", "-0", "00a", "1-1", "rc-1", "rc-9", "rc-10", "x-1a", "x-2", "x--", "20200101000000-123456789012", "20200101000000-abcdef123456"}[rapid.IntRange(0, 24).Draw(t, label+"word")]
+		return []string{"alpha", "beta", "rc", "pre", "RC", "Alpha", "a", "b", "A", "-", "--", "0a", "a0", "0-", "-0", "00a", "1-1", "rc-1", "rc-9", "rc-10", "x-1a", "x-2", "x--", "20200101000000-123456789012", "20200101000000-abcdef123456",
+			// alphanumeric identifiers that begin with a digit or a hyphen, next to numeric ones of the same length
+			"1a", "1-", "9z", "92", "10", "5", "0-0", "100", "1-0", "99", "9-"}[Uniform(t, 36, label+"word")]
 	case k < 80:
 		return identChars(t, 1, 5, label)
 	case k < 88:
